@@ -1,6 +1,7 @@
 import GormModel.Drv.Util
 import GormModel.Model.Scan
 import GormModel.Model.SchemaAttrs
+import GormModel.Model.Serializer
 import GormModel.Gen.BackfillFacts
 open Lean
 namespace Gorm.Drv
@@ -225,10 +226,95 @@ def afieldJ (f : Attrs.AField) : Json :=
 
 def parseBoolList (j : Json) : Option (List Bool) := do (← jArr? j).toList.mapM jBool?
 
+def parseEnts (j : Json) : Option (List (String × Json)) := do
+  (← jArr? j).toList.mapM (fun e => do
+    let a ← jArr? e
+    some (← jStr? (arg a 0), arg a 1))
+
+def dbvJ : Ser.DBV → Json
+  | .null => Json.null
+  | .time n => Json.arr #[Json.str "time", intJ n]
+  | .text s => Json.arr #[Json.str "text", Json.str s]
+  | .blob b => Json.arr #[Json.str "blob", natListJ b]
+
+def parseDBV (j : Json) : Option Ser.DBV :=
+  match j with
+  | Json.null => some .null
+  | _ => do
+    let a ← jArr? j
+    match ← jStr? (arg a 0) with
+    | "time" => some (.time (← jBigInt? (arg a 1)))
+    | "text" => some (.text (← jStr? (arg a 1)))
+    | "blob" => some (.blob (← parseBytes (arg a 1)))
+    | _ => none
+
+def ufieldJ : Ser.UField → Json
+  | .val n => Json.arr #[Json.str "val", intJ n]
+  | .ptr none => Json.arr #[Json.str "ptr", Json.null]
+  | .ptr (some n) => Json.arr #[Json.str "ptr", intJ n]
+
+def parseUField (j : Json) : Option Ser.UField := do
+  let a ← jArr? j
+  match ← jStr? (arg a 0) with
+  | "val" => some (.val (← jBigInt? (arg a 1)))
+  | "ptr" => match arg a 1 with
+    | Json.null => some (.ptr none)
+    | x => some (.ptr (some (← jBigInt? x)))
+  | _ => none
+
+def scanActJ : Ser.ScanAct → Json
+  | .zero => Json.str "zero"
+  | .decode s => Json.arr #[Json.str "decode", Json.str s]
+  | .decodeBlob b => Json.arr #[Json.str "decode-blob", natListJ b]
+  | .error => Json.str "error"
+
 end HC03
 open HC03 in
 def handleC03 (op : String) (args : Array Json) : Option Json := do
   match op with
+  | "c03.mapcreate" =>
+    -- ["c03.mapcreate", decl|null, selects, omits, single, [[[key, value]…]…]] →
+    --   "error" | "unmodelled" | single: [[column, value]…] | slice: [columns, [[value|null]…]]
+    let sch ← match arg args 1 with
+      | Json.null => some none
+      | d => do some (some (Attrs.parseDecl (← parseADecl 200 (← jArr? d).toList)))
+    let sels ← (← jArr? (arg args 2)).toList.mapM jStr?
+    let oms ← (← jArr? (arg args 3)).toList.mapM jStr?
+    let single ← jBool? (arg args 4)
+    let ms ← (← jArr? (arg args 5)).toList.mapM parseEnts
+    if (sch.map (·.unmodelled)).getD false then some (Json.str "unmodelled")
+    else if (sch.map (·.bad)).getD false then some (Json.str "error")
+    else if single then
+      some (Json.arr ((Attrs.mapCreateOne sch sels oms (ms.headD [])).map (fun e => Json.arr #[Json.str e.1, e.2])).toArray)
+    else
+      let (cols, rows) := Attrs.mapCreateMany sch sels oms ms
+      some (Json.arr #[strListJ cols, Json.arr (rows.map (fun r => Json.arr (r.map (·.getD Json.null)).toArray)).toArray])
+  | "c03.ser.unix" =>
+    -- ["c03.ser.unix", field] → [Value, round trip into a fresh struct | "error"]
+    let f ← parseUField (arg args 1)
+    some (Json.arr #[dbvJ (Ser.unixValue f), match Ser.unixRoundTrip f with
+      | some g => ufieldJ g
+      | none => Json.str "error"])
+  | "c03.ser.unixscan" =>
+    -- ["c03.ser.unixscan", current field, dbValue] → field | "error"
+    let f ← parseUField (arg args 1)
+    let d ← parseDBV (arg args 2)
+    some (match Ser.unixScan f d with
+      | some g => ufieldJ g
+      | none => Json.str "error")
+  | "c03.ser.json" =>
+    -- ["c03.ser.json", notNull, marshalled text] → [Value, what Scan does with it]
+    let nn ← jBool? (arg args 1)
+    let enc ← jStr? (arg args 2)
+    let v := Ser.jsonValue nn enc
+    some (Json.arr #[dbvJ v, scanActJ (Ser.jsonScan v)])
+  | "c03.ser.scan" =>
+    -- ["c03.ser.scan", "json"|"gob", dbValue] → what Scan does
+    let d ← parseDBV (arg args 2)
+    match ← jStr? (arg args 1) with
+    | "json" => some (scanActJ (Ser.jsonScan d))
+    | "gob" => some (scanActJ (Ser.gobScan d))
+    | _ => none
   | "c03.set" =>
     -- ["c03.set", kind, cur, src] → result of field.Set
     let k ← parseKind (arg args 1)
